@@ -1,7 +1,11 @@
 #!/bin/sh
 # maintenance: try_seed.sh <seed-name> <ID> [tier] - apply /verif/seeded/<seed-name>/patch.diff to /repo, run ./check <ID>, undo.
+# The evidence file of the clean tree is put back afterwards (evidence must describe a run on /repo as committed).
 seed=$1; id=$2; tier=${3:-quick}
 cd /repo && git diff --quiet || { echo "/repo is dirty"; exit 2; }
 git -C /repo apply /verif/seeded/$seed/patch.diff || exit 2
+cp /verif/evidence/$id.json /tmp/evidence-$id.keep 2>/dev/null
 cd /verif && ./check $id --tier $tier 2>&1 | grep -v "^WARNING" | grep -E "VIOLATION|^\[" | head -8
-git -C /repo checkout -- . 
+git -C /repo checkout -- .
+[ -f /tmp/evidence-$id.keep ] && mv /tmp/evidence-$id.keep /verif/evidence/$id.json
+rm -rf /verif/evidence/replay/$id-*
